@@ -2,7 +2,7 @@
 from __future__ import annotations
 
 import ast
-from typing import Optional
+from typing import Dict, Optional
 
 from .. import alias as aliasmod
 from .. import cfg as cfgmod
@@ -200,8 +200,66 @@ def _s1(program, res):
         res.fail_at("C19-S1", cc, "clean_copy-not-copy", f"clean_copy no longer builds a new frame: `{t[-80:]}`")
 
 
+def _s1_all_steps(program, res):
+    """every executor step (not only the table step): nothing it returns or writes is an alias of a caller's frame.
+    Helper methods that hand back the caller's frame (a lookup without a copy) are summarised and followed."""
+    for (mod, cname) in (("pandas_base", "PandasModelBase"), ("polars_model", "PolarsModel")):
+        cls = program.cls(mod, cname)
+        returns_owned: Dict[str, str] = {}
+
+        def make_source(ro):
+            def source_of(e):
+                if isinstance(e, ast.Subscript) and isinstance(e.value, ast.Name) and e.value.id == "data_map":
+                    return ("owned", unparse(e))
+                if isinstance(e, ast.Attribute) and unparse(e) in ("op.head", "source.head"):
+                    return ("owned", unparse(e))
+                if isinstance(e, ast.Call) and isinstance(e.func, ast.Attribute) and isinstance(e.func.value, ast.Name) \
+                        and e.func.value.id == "self" and e.func.attr in ro:
+                    return ("owned", f"self.{e.func.attr}(…)")
+                return None
+            return source_of
+        # summaries to a fixpoint: which methods can return the caller's frame itself
+        cands = [m for m in cls.methods.values() if "data_map" in m.params() or m.name in ("clean_copy",)]
+        for _round in range(4):
+            changed = False
+            for m in cands:
+                if m.name in returns_owned:
+                    continue
+                g = cfgmod.build(m.node)
+                al = aliasmod.Alias(g, m.params(), make_source(returns_owned), inplace_helpers=INPLACE_HELPERS)
+                if al.returned_aliases():
+                    returns_owned[m.name] = m.qualname
+                    changed = True
+            if not changed:
+                break
+        n = 0
+        for m in cands:
+            is_step = m.name.endswith("_step") or m.name in ("_eval_value_source", "eval", "_compose_polars_ops")
+            if not is_step:
+                continue
+            n += 1
+            res.analysed(m)
+            g = cfgmod.build(m.node)
+            al = aliasmod.Alias(g, m.params(), make_source({k: v for k, v in returns_owned.items() if k != m.name}), inplace_helpers=INPLACE_HELPERS)
+            effs = [e for e in al.effects() if any(t[0] == "owned" for t in e.tags)]
+            rets = al.returned_aliases()
+            for e in effs:
+                res.fail_at("C19-S1", m, f"input-mutated:{e.what.split('`')[0].strip()}",
+                            f"{m.qualname}: {e.what} acts on `{e.var}`, an alias of the caller's frame {sorted(t[1] for t in e.tags)}", e.stmt)
+            for (r, tg) in rets:
+                res.fail_at("C19-S1", m, "returns-input",
+                            f"{m.qualname} can return `{unparse(r.stmt.value)}`, which is the caller's own frame {sorted(t[1] for t in tg)} (not a copy): "
+                            f"later steps write scratch and id columns into their working frame in place, so the input is modified and a repeat evaluation differs", r.stmt)
+            if not effs and not rets:
+                res.ok("C19-S1", f"{m.qualname}: returns and writes only frames it owns")
+        res.extra[f"C19 helpers of {cname} that hand back the caller's frame"] = sorted(returns_owned.values())
+        if n < 12:
+            raise AnalysisError(f"{cname}: only {n} step methods found")
+
+
 def run(program, res, tier):
     res.rule("C19-S1", "no in-place effect reaches a caller-owned frame; table steps return fresh frames")
     res.rule("C19-S2", "evaluation and SQL generation never mutate the operator nodes")
     _s1(program, res)
+    _s1_all_steps(program, res)
     _s2(program, res)
